@@ -163,6 +163,34 @@ def execute(case):
     return {"ok": not fails, "failures": fails, "outcome": "ok" if not fails else fails[0]["sig"]["kind"], "nontrivial": n_loaded > 0, "n": n, "n_agree": n_agree, "n_skip": n_skip}
 
 
+def execute_large(case):
+    """the same monitor on a realistically sized image (> 1 MiB per chunk at the default rpc)"""
+    tc, L, P, rpc = case["type"], case["L"], case["P"], case["rpc"]
+    im = synth.image_spec("HH", None, L, P, tc)
+    spec = synth.product_spec("1.1" if tc == "C*8" else "1.5", images=[im])
+    files, _ = synth.build(spec)
+    fname = synth.image_name(spec, im)
+    fails, n = [], 0
+    with harness.Product(files, "mcfs") as prod:
+        vfs.reset_log()
+        tree = prod.open(use_cache=False, **({"records_per_chunk": rpc} if rpc else {}))
+        for b in check_open(list(vfs.LOG), fname, im, rpc or 1024):
+            fails.append({"sig": {"kind": "open"}, "detail": f"{tc} {L}x{P} rpc={rpc or 'default'}: {b}", "case": {**case, "fn": "execute_large"}})
+        da = tree["imagery/HH/data"]
+        sels = [0, L // 2, L - 1, slice(None), slice(L // 3, L // 3 + 5), slice(None, None, 16), slice(None, None, 2), slice(0, 64), slice(0, 128), slice(64, 65), slice(L - 3, None), slice(None, None, -7), [3, L - 2], slice(2, 2)]
+        for sel in sels:
+            rows = list(range(L))[sel] if isinstance(sel, slice) else ([sel] if isinstance(sel, int) else list(sel))
+            vfs.reset_log()
+            da.isel(rows=sel).values
+            n += 1
+            bad = check_load(list(vfs.LOG), fname, im, rpc or 1024, rows)
+            if bad:
+                sig = {"kind": "large-" + bad[0].split(" ")[0]}
+                if core.jkey(sig) not in {core.jkey(f["sig"]) for f in fails}:
+                    fails.append({"sig": sig, "detail": f"{tc} {L}x{P} rpc={rpc or 'default'} rows={sel}: {'; '.join(bad[:2])}", "case": {**case, "fn": "execute_large"}})
+    return {"ok": not fails, "failures": fails, "outcome": "large-ok" if not fails else fails[0]["sig"]["kind"], "nontrivial": True, "n": n, "n_agree": n, "n_skip": 0}
+
+
 def in_bounds(e, n):
     if e is None:
         return True
@@ -203,7 +231,8 @@ def run(res, tier, seed):
         "rows alphabet of C02 (all ints, slices, int arrays len<=2, masks) x 4 column representatives x rpc 1..L+1 x L 1..4|6 x both types;"
         " each load's mcfs:// event log is checked against byte spans computed by independent arithmetic; plus one"
         " open_alos2 metadata-pass log per (type, L, P, rpc); plus the same loads on an image opened through an index cache that was"
-        " written and first used with a different rpc (groups are those of the *requested* rpc). A batch is non-trivial if at least one selection loads >= 1 line."
+        " written and first used with a different rpc (groups are those of the *requested* rpc); plus 14 selections on realistically sized"
+        " images (640x1000 IU2, 320x600 C*8) at rpc {default, 64, 1000}. A batch is non-trivial if at least one selection loads >= 1 line."
     )
     res.assumptions = ["I/O is observed at the fsspec file-object level (open/seek/read), not at the OS level"]
     n = na = nskip = 0
@@ -213,6 +242,10 @@ def run(res, tier, seed):
         n += out["n"]
         na += out["n_agree"]
         nskip += out["n_skip"]
+    large = [{"type": tc, "L": L, "P": P, "rpc": rpc} for tc, L, P in (("IU2", 640, 1000), ("C*8", 320, 600)) for rpc in (None, 64, 1000)]
+    for idx, case, out in core.pool_map(__name__, "execute_large", large, chunksize=1):
+        res.record({**case, "fn": "execute_large"}, out, order=10**6 + idx)
+        n += out["n"]
     res.extra["loads_monitored"] = n
     res.extra["selection_model_agrees_with_coordinate"] = na
     res.extra["skipped_lazy_shape_inconsistent_with_coordinate"] = nskip
